@@ -36,7 +36,16 @@ RULE = ("cases = (family, operation + parameters, operand tree of depth 1-3 with
         "rendered twice; with highlights - full points, sub-tensor points shorter than the depth, several workers, "
         "wildcards, the list / single-point argument forms - rendered plain, highlighted, highlighted again, highlighted "
         "with a fresh equal argument and plain again, all in one process). small scope (seed-independent): every operation x a fixed family of small operands; random: "
-        "larger trees. non-trivial = value case with a non-empty operand and follow-ups on both sides, or a read case "
+        "larger trees. widened classes (small scope + sprinkled over the random stream): U format on unowned fibers / with "
+        "estimated extents only / mixed C-U / restricted active ranges; fibers built with another default or shape than "
+        "their rank; different declared shapes on two operands; float / bool / str leaves and float / str defaults; the "
+        "operation applied twice to the same operands (both results checked against the operand and against each other); "
+        "reads repeated after in-place growth with the helper object reused; lazy results iterated twice and built again; "
+        "lazy fibers as operands of further co-iteration (hoisted and right-nested); operands built before / inside a Metrics "
+        "bracket; tuple coordinates of an earlier flatten as input of splits, merges, copies and readers; scalar arguments "
+        "plain / Payload / Payload(Payload) / CoordPayload; a fiber as split list; zero / negative steps, empty split lists, "
+        "order-sensitive merge callbacks with 3-way collisions, coordinates 9 / 10 / 100, depth 4; every payload a reader "
+        "delivers is a stored payload or a fresh object outside the operand's graph, pairwise distinct. non-trivial = value case with a non-empty operand and follow-ups on both sides, or a read case "
         "on an operand with > 12 objects")
 
 HIST_ALPHABET = ["ref", "posref", "append", "extend", "setitem", "iadd", "imul", "iaddf", "imulf", "assignf",
@@ -140,6 +149,31 @@ def canon(g):
     return [d + "->" + ",".join(str(idx[p]) for p in p_) for d, p_ in g.values()]
 
 
+def changed_fields(g0, g1):
+    """which fields of which kinds of objects differ between two walks (for classification only)"""
+    out = set()
+    for a, (d0, p0) in g0.items():
+        if a not in g1:
+            out.add(d0.split("|", 1)[0] + ":unreachable")
+            continue
+        d1, p1 = g1[a]
+        if d0 == d1 and p0 == p1:
+            continue
+        k0, _, j0 = d0.partition("|")
+        try:
+            f0, f1 = json.loads(j0), json.loads(d1.partition("|")[2])
+        except Exception:
+            f0 = f1 = None
+        if isinstance(f0, dict) and isinstance(f1, dict):
+            diff = [k for k in sorted(set(f0) | set(f1)) if f0.get(k) != f1.get(k)]
+            out.update(f"{k0}.{k}" for k in diff)
+            if not diff:
+                out.add(k0 + ".<reference>")
+        else:
+            out.add(k0 + ".<content>")
+    return sorted(out)
+
+
 def digest(g):
     return hashlib.sha1("\n".join(canon(g)).encode()).hexdigest()
 
@@ -148,25 +182,65 @@ def digest(g):
 # operands
 # ---------------------------------------------------------------------------------------
 
+def conv_leaf(case, v):
+    """leaf value kinds: int (default) | float | bool | str"""
+    k = case.get("vals")
+    if k == "float":
+        return v + 0.5
+    if k == "bool":
+        return bool(v)
+    if k == "str":
+        return "" if v == 0 else "s%d" % v
+    return v
+
+
+def _build_fiber(case, tree, depth, fd, level=0):
+    """Fiber objects through the public constructor; `fd` = the default the FIBERS are built with (may differ
+    from the tensor's), optional own declared shape, own format, own active range"""
+    F = H.ft().Fiber
+    kw = {"default": fd}
+    if case.get("fshape"):
+        kw["shape"] = case["fshape"]
+    if depth == 1:
+        f = F([c for c, _ in tree], [conv_leaf(case, v) for _, v in tree], **kw)
+    else:
+        f = F([c for c, _ in tree], [_build_fiber(case, sub, depth - 1, fd, level + 1) for _, sub in tree], **kw)
+    if case.get("kind") == "free" and case.get("fmt"):
+        f.getRankAttrs().setFormat(case["fmt"][level])      # an unowned fiber's own format
+    act = case.get("active")
+    if act and (level == 0 or case.get("active_all")):
+        f.setActive((act[0], act[1]))
+    return f
+
+
 def build(case, key="t"):
     """returns (operand, tensor or None, walk roots)"""
     ft = H.ft()
-    d, dflt = case["d"], case["dflt"]
-    f = H.build_fiber(case[key], d, dflt)
-    kind = case["kind"]
-    if kind == "free":
-        op = f
-        tensor = None
-    else:
-        tensor = ft.Tensor.fromFiber(rank_ids=IDS[:d], fiber=f, default=dflt, shape=case.get("shape"),
-                                     name="T" + key)
-        for rid, fm in zip(IDS[:d], case.get("fmt") or []):
-            tensor.setFormat(rid, fm)
-        if case.get("mutable"):
-            tensor.setMutable(True)
-        op = tensor
+    d = case["d"]
+    dflt = conv_leaf(case, case["dflt"])
+    fd = conv_leaf(case, case["fdflt"]) if "fdflt" in case else dflt
+    brk = case.get("metrics") == "built_inside"
+    if brk:
+        ft.Metrics.beginCollect()
+    try:
+        f = _build_fiber(case, case[key], d, fd)
+        kind = case["kind"]
+        if kind == "free":
+            op = f
+            tensor = None
+        else:
+            shape = case.get("shape2") if key == "t2" and case.get("shape2") else case.get("shape")
+            tensor = ft.Tensor.fromFiber(rank_ids=IDS[:d], fiber=f, default=dflt, shape=shape, name="T" + key)
+            for rid, fm in zip(IDS[:d], case.get("fmt") or []):
+                tensor.setFormat(rid, fm)
+            if case.get("mutable"):
+                tensor.setMutable(True)
+            op = tensor
+    finally:
+        if brk:
+            ft.Metrics.endCollect()
     pre = case.get("pre")
-    if pre:                      # tuple-coordinate operands come from a previous flatten
+    if pre:                      # tuple-coordinate operands come from a previous flatten (outside any bracket)
         if tensor is not None:
             tensor = tensor.flattenRanks(depth=pre.get("depth", 0), levels=pre.get("levels", 1),
                                          coord_style=pre.get("style", "tuple"))
@@ -181,6 +255,23 @@ def build(case, key="t"):
         op = subs[case.get("subidx", 0) % len(subs)] if subs else root
     roots = [op] + ([tensor] if tensor is not None and op is not tensor else [])
     return op, tensor, roots
+
+
+@contextlib.contextmanager
+def bracket(case):
+    """operands built BEFORE a Metrics bracket and used inside it"""
+    M = H.ft().Metrics
+    on = case.get("metrics") == "inside"
+    if on:
+        M.beginCollect()
+    try:
+        yield
+    finally:
+        if on or M.isCollecting():
+            try:
+                M.endCollect()
+            except Exception:
+                M.collecting = False
 
 
 def root_fiber(x):
@@ -210,6 +301,8 @@ def apply_value(op, x, a, others):
     if name == "splitUniform":
         return x.splitUniform(a["step"], **_split_kwargs(a))
     if name == "splitNonUniform":
+        if a.get("splits_fiber"):       # a fiber where a list is the usual form: `others[-1]` is that fiber
+            return x.splitNonUniform(others[-1], **_split_kwargs(a))
         return x.splitNonUniform(list(a["splits"]), **_split_kwargs(a))
     if name == "splitEqual":
         return x.splitEqual(a["step"], **_split_kwargs(a))
@@ -228,9 +321,11 @@ def apply_value(op, x, a, others):
             return x.flattenRanks(depth=a["depth"], levels=a["levels"], coord_style=a["style"])
         return x.flattenRanks(depth=a["depth"], levels=a["levels"], style=a["style"])
     if name == "mergeRanks":
+        mf = {None: None, "first": (lambda ps: ps[0]), "last": (lambda ps: ps[-1]),
+              "sub": (lambda ps: ps[0] - sum(ps[1:]))}[a.get("merge_fn")]      # order-sensitive callbacks
         if op.startswith("T."):
-            return x.mergeRanks(depth=a["depth"], levels=a["levels"], coord_style=a["style"])
-        return x.mergeRanks(depth=a["depth"], levels=a["levels"], style=a["style"])
+            return x.mergeRanks(depth=a["depth"], levels=a["levels"], coord_style=a["style"], merge_fn=mf)
+        return x.mergeRanks(depth=a["depth"], levels=a["levels"], style=a["style"], merge_fn=mf)
     if name == "unflattenRanks":
         if op.startswith("T."):
             return x.unflattenRanks(depth=a["depth"], levels=a["levels"])
@@ -244,7 +339,8 @@ def apply_value(op, x, a, others):
             return x.updatePayloads(lambda i, c, p: ft.Payload(p.value + b), depth=a["depth"])
         return x.updatePayloads(lambda i, c, p: p.value + b, depth=a["depth"])
     if name == "fromFiber":          # Tensor.setRoot copies a root that already has an owner
-        return ft.Tensor.fromFiber(rank_ids=x.getRankIds(), fiber=x.getRoot(), default=a.get("dflt", 0))
+        # (the rank ids of a flattened tensor are list objects: pass an own copy, not the operand's)
+        return ft.Tensor.fromFiber(rank_ids=copy.deepcopy(x.getRankIds()), fiber=x.getRoot(), default=a.get("dflt", 0))
     if name == "deepcopy":
         return copy.deepcopy(x)
     if name == "copy":
@@ -253,14 +349,15 @@ def apply_value(op, x, a, others):
         return x + others[0]
     if name == "mul":
         return x * others[0]
+    sc = others[-1] if a.get("sform") else a.get("s")
     if name == "add_scalar":
-        return x + a["s"]
+        return x + sc
     if name == "radd_scalar":
-        return a["s"] + x
+        return sc + x
     if name == "mul_scalar":
-        return x * a["s"]
+        return x * sc
     if name == "rmul_scalar":
-        return a["s"] * x
+        return sc * x
     raise ValueError(op)
 
 
@@ -478,6 +575,17 @@ def run_value(case):
         o2, t2, r2 = build(case, "t2")
         others.append(o2)
         a_roots = a_roots + r2
+    args = case.get("args", {})
+    if args.get("sform"):           # scalar argument plain / boxed / double boxed / as an element: an operand as well
+        v = conv_leaf(case, args["s"])
+        sc = {"payload": lambda: ft.Payload(v), "ppayload": lambda: ft.Payload(ft.Payload(v)),
+              "cp": lambda: ft.CoordPayload(0, ft.Payload(v))}[args["sform"]]()
+        others.append(sc)
+        a_roots = a_roots + [sc]
+    if args.get("splits_fiber"):
+        sf = ft.Fiber(list(args["splits"]), [1] * len(args["splits"]))
+        others.append(sf)
+        a_roots = a_roots + [sf]
     target = pick_target(op, operand, tensor)
     impl = {}
     side = {}
@@ -490,20 +598,36 @@ def run_value(case):
         a_roots = [target] + a_roots
     g0 = W.walk(a_roots)
     impl["canonA0"] = canon(g0)
-    try:
-        res = apply_value(op, target, case.get("args", {}), others)
-        impl["outcome"] = "ok"
-    except Exception as e:
-        res = None
-        impl["outcome"] = H.err_class(e)
+    res2 = None
+    with bracket(case):
+        try:
+            res = apply_value(op, target, args, others)
+            impl["outcome"] = "ok"
+        except Exception as e:
+            res = None
+            impl["outcome"] = H.err_class(e)
+        if case.get("twice"):           # the same operation applied a second time to the same operands
+            try:
+                res2 = apply_value(op, target, args, others)
+                out2 = "ok"
+            except Exception as e:
+                out2 = H.err_class(e)
+            side["repeated_call_same_outcome"] = (out2 == impl["outcome"])
     g1 = W.walk(a_roots)
     impl["canonA1"] = canon(g1)
     impl["objectwise_identical"] = (g0 == g1)               # stronger, id-level; informative only
+    if impl["canonA0"] != impl["canonA1"]:
+        impl["changed"] = changed_fields(g0, g1)
     if res is None:
         case["impl"] = impl
-        case["side"] = {}
+        case["side"] = side
         return case
     b_roots = [res]
+    if res2 is not None:
+        gr1, gr2 = W.walk([res]), W.walk([res2])
+        side["repeated_call_result_structurally_equal"] = canon(gr1) == canon(gr2)
+        side["repeated_call_results_disjoint"] = not any(a in gr2 for a in gr1)
+        b_roots = [res, res2]
     roots_all = a_roots + b_roots
     gab = W.walk(roots_all)
     impl["heap"] = rows(gab)
@@ -525,7 +649,7 @@ def run_value(case):
         impl["steps"] = []
         impl["final"] = impl["heap"]
         case["impl"] = impl
-        case["side"] = {}
+        case["side"] = side
         return case
     n_steps = case.get("nfollow", 6)
     a_obj = tensor if tensor is not None else operand
@@ -534,13 +658,14 @@ def run_value(case):
     hint_a = None if case.get("pre") else case["d"]
     # the C01 step model is claimed for trees as C01 builds them: the operand side when it is a plain C-format
     # tree, and the result side when the result is a plain copy of such a tree
-    plain_a = not case.get("fmt") and not case.get("pre") and (case["kind"] != "free" or case["d"] == 1)
+    plain_a = (not case.get("fmt") and not case.get("pre") and (case["kind"] != "free" or case["d"] == 1) and
+               not any(case.get(k) for k in ("vals", "fshape", "active", "metrics")) and "fdflt" not in case)
     plain_b = plain_a and op in ("T.deepcopy", "F.deepcopy", "F.copy")
     steps, invisible = follow_ups(rng, W, sides, roots_all, current, n_steps, case["dflt"], case.get("n", 4),
                                   (hint_a, None), (plain_a, plain_b))
     impl["steps"] = steps
     impl["final"] = rows(W.walk(roots_all))
-    side = {"followups_invisible_to_other_side": invisible}
+    side["followups_invisible_to_other_side"] = invisible
     case["impl"] = impl
     case["side"] = side
     return case
@@ -573,6 +698,47 @@ def _points(rng, d, n):
     return [[rng.randrange(-1, n + 1) for _ in range(rng.randrange(1, d + 1))] for _ in range(4)]
 
 
+def _deliver(case, p):
+    """remember every payload object a reader hands out (tuples are taken apart)"""
+    ft = H.ft()
+    if isinstance(p, tuple):
+        for e in p:
+            _deliver(case, e)
+    elif isinstance(p, ft.CoordPayload):
+        _deliver(case, p.payload)
+    elif isinstance(p, ft.Payload) and isinstance(p.value, tuple):
+        _deliver(case, p.value)
+    elif isinstance(p, (ft.Payload, ft.Fiber)):
+        case.setdefault("_delivered", []).append(p)
+
+
+def _twice(case, mk, depth=2):
+    """iterate a lazy result twice (and a freshly built equal one once): same elements each time"""
+    ft = H.ft()
+
+    def flat(z, d):
+        out = []
+        for c, p in z:
+            _deliver(case, p)
+            parts = p if isinstance(p, tuple) else (p,)
+            row = [repr(c)]
+            for e in parts:
+                if isinstance(e, ft.Fiber) and e.isLazy() and d > 1:
+                    row.append(flat(e, d - 1))
+                elif isinstance(e, ft.Fiber):
+                    row.append("F" + json.dumps(H.snapshot(e), default=str))
+                else:
+                    row.append(repr(e))
+            out.append(row)
+        return out
+    z = mk()
+    first = flat(z, depth)
+    second = flat(z, depth)
+    third = flat(mk(), depth)
+    ok = first == second == third
+    case["_lazy_same"] = case.get("_lazy_same", True) and ok
+
+
 def apply_read(op, x, a, others, tensor, case):
     """x: Fiber (F.*) or Tensor (T.*).  Returns nothing interesting; must not disturb anything."""
     ft = H.ft()
@@ -580,7 +746,13 @@ def apply_read(op, x, a, others, tensor, case):
     g = others[0] if others else None
     if name == "getPayload":
         for p in a["points"]:
-            x.getPayload(*p)
+            _deliver(case, x.getPayload(*p))
+            _deliver(case, x.getPayload(*p))        # the same absent point again: a second, distinct object
+        return
+    if name == "getPayload_tuple":          # tuple coordinates from an earlier flatten
+        r = x.getRoot() if isinstance(x, ft.Tensor) else x
+        for c in list(r.coords)[:3] + [(97, 98)]:
+            _deliver(case, x.getPayload(c))
         return
     if name == "getPayload_noalloc":
         for p in a["points"]:
@@ -613,12 +785,16 @@ def apply_read(op, x, a, others, tensor, case):
             x.getPosition(c)
         return
     if name == "project":
-        _consume(x.project(trans_fn=lambda c: c + 1))
+        _twice(case, lambda: x.project(trans_fn=lambda c: c + 1))
+        _twice(case, lambda: x.project(trans_fn=lambda c: 7 - c))       # order-reversing
+        _twice(case, lambda: x.project(trans_fn=lambda c: c + 1, interval=(1, 3)))
         return
     if name == "prune":
-        _consume(x.prune(trans_fn=lambda i, c, p: i % 2 == 0))
+        _twice(case, lambda: x.prune(trans_fn=lambda i, c, p: i % 2 == 0))
         return
     if name == "iter":
+        for c, p in x:
+            _deliver(case, p)
         [(c, p) for c, p in x]
         return
     if name == "iter_nested":
@@ -632,21 +808,42 @@ def apply_read(op, x, a, others, tensor, case):
         list(reversed(x))
         return
     if name in ("iterOccupancy", "iterShape", "iterActive", "iterActiveShape"):
+        for c, p in getattr(x, name)():
+            _deliver(case, p)
         list(getattr(x, name)())
         return
     if name == "iterRange":
         list(x.iterRange(a["s"], a["e"]))
         return
     if name == "iterRangeShape":
-        list(x.iterRangeShape(a["s"], a["e"], a.get("step", 1)))
+        for c, p in x.iterRangeShape(a["s"], a["e"], a.get("step", 1)):
+            _deliver(case, p)
         return
     if name == "iterUncompressed":
-        list(x.iterUncompressed())
+        for c, p in x.iterUncompressed():
+            _deliver(case, p)
         return
     if name in ("and", "or", "xor", "sub"):
-        z = {"and": x.__and__, "or": x.__or__, "xor": x.__xor__, "sub": x.__sub__}[name](g)
-        for c, p in z:
-            _consume(p)
+        _twice(case, lambda: {"and": x.__and__, "or": x.__or__, "xor": x.__xor__, "sub": x.__sub__}[name](g))
+        return
+    if name.startswith("lazy_"):
+        # lazy fibers as operands of further co-iteration, hoisted and right-nested
+        Fb = ft.Fiber
+        mk = {
+            "lazy_hoisted": lambda: (x & g) & x,
+            "lazy_right": lambda: x & (g & x),
+            "lazy_or_and": lambda: (x | g) & x,
+            "lazy_and_or": lambda: x | (g & x),
+            "lazy_sub_and": lambda: (x - g) & g,
+            "lazy_project_and": lambda: x.project(trans_fn=lambda c: c + 1) & g,
+            "lazy_prune_or": lambda: x.prune(trans_fn=lambda i, c, p: i % 2 == 0) | g,
+            "lazy_intersection_and": lambda: Fb.intersection(x, g) & x,
+            "lazy_union_sub": lambda: Fb.union(x, g) - g,
+            "lazy_xor_or": lambda: (x ^ g) | x,
+        }[name]
+        _twice(case, mk, depth=3)
+        if name == "lazy_hoisted":
+            len(x & g)
         return
     if name == "and_nested":
         def rec(f1, f2):
@@ -663,16 +860,18 @@ def apply_read(op, x, a, others, tensor, case):
         rec(x, g)
         return
     if name in ("coiterShape", "coiterActiveShape"):
-        _consume(getattr(ft.Fiber, name)([x, g]))
+        _twice(case, lambda: getattr(ft.Fiber, name)([x, g]))
         return
     if name == "coiterRangeShape":
-        _consume(ft.Fiber.coiterRangeShape([x, g], a["s"], a["e"]))
+        _twice(case, lambda: ft.Fiber.coiterRangeShape([x, g], a["s"], a["e"], a.get("step", 1)))
         return
     if name == "intersection":
-        _consume(ft.Fiber.intersection(x, g))
+        _twice(case, lambda: ft.Fiber.intersection(x, g))
+        _twice(case, lambda: ft.Fiber.intersection(x, g, x))
         return
     if name == "union":
-        _consume(ft.Fiber.union(x, g))
+        _twice(case, lambda: ft.Fiber.union(x, g))
+        _twice(case, lambda: ft.Fiber.union(x, g, x))
         return
     if name == "eq":
         x == g
@@ -736,7 +935,9 @@ def apply_read(op, x, a, others, tensor, case):
         spec = {rid: {"format": fm, "cbits": 8, "pbits": 16, "fhbits": 4, "rhbits": 2, "layout": "contiguous"}
                 for rid, fm in zip(x.getRankIds(), a["fmts"])}
         spec["root"] = {"hbits": 3, "pbits": 5}
-        fmt = F(x, spec)
+        cache = case.setdefault("_cache", {})
+        fmt = cache.get("fmt") or F(x, spec)        # the helper object is reused when the read is repeated
+        cache["fmt"] = fmt
         fmt.getRoot(), fmt.getTensor()
         for rid in x.getRankIds():
             fmt.getRank(rid), fmt.getCBits(rid), fmt.getPBits(rid), fmt.getFHBits(rid), fmt.getRHBits(rid)
@@ -796,6 +997,37 @@ def apply_read(op, x, a, others, tensor, case):
     raise ValueError(op)
 
 
+def _fresh_distinct(case, fresh):
+    """objects built for absent points: no object handed out for two different deliveries.  A lazy result that is
+    iterated twice legitimately re-delivers nothing fresh either (each pass builds its own defaults)."""
+    seen = set()
+    for o in fresh:
+        if id(o) in seen:
+            return False
+        seen.add(id(o))
+    return True
+
+
+def _grow(x, case):
+    """in-place growth of the operand between two reads"""
+    ft = H.ft()
+    root = root_fiber(x)
+    if root is None:
+        return
+    try:
+        fibers = _all_fibers(root)
+        leafs = [f for f in fibers if f.payloads and isinstance(f.payloads[0], ft.Payload)]
+        if leafs:
+            f = leafs[-1]
+            f.append(f.maxCoord() + 5, conv_leaf(case, 9))       # past the old extent
+        if isinstance(x, ft.Tensor) or root.getOwner() is not None:
+            root.getPayloadRef(*([1] * case["d"]))                # an absent (or present) point, created with defaults
+        elif leafs:
+            leafs[0].getPayloadRef(leafs[0].maxCoord() + 2)
+    except Exception:
+        pass
+
+
 def run_read(case):
     ft = H.ft()
     W = Walker()
@@ -812,16 +1044,50 @@ def run_read(case):
     if op.startswith("F.") and isinstance(x, ft.Tensor):
         x = x.getRoot()
     impl = {}
+    args = case.get("args", {})
+    if case.get("remut"):
+        # the read once, then the operand is mutated in place (grown past its old extent, element added at an
+        # absent point), then the SAME read again (helper objects reused): the second one is the observed one
+        try:
+            apply_read(op, x, args, others, tensor, case)
+        except Exception:
+            pass
+        case.pop("_delivered", None)
+        _grow(x, case)
     g0 = W.walk(roots)
-    try:
-        apply_read(op, x, case.get("args", {}), others, tensor, case)
-        impl["outcome"] = "ok"
-    except Exception as e:
-        impl["outcome"] = H.err_class(e)
+    with bracket(case):
+        try:
+            apply_read(op, x, args, others, tensor, case)
+            impl["outcome"] = "ok"
+        except Exception as e:
+            impl["outcome"] = H.err_class(e)
     g1 = W.walk(roots)
     impl["g0"] = rows(g0)
     impl["g1"] = rows(g1)
     side = {}
+    case.pop("_cache", None)
+    if "_lazy_same" in case:
+        side["lazy_result_iterates_identically"] = case.pop("_lazy_same")
+    delivered = case.pop("_delivered", None)
+    if delivered is not None:
+        # every delivered payload is either a STORED payload of the operand (an element of one of its lists) or an
+        # object that is not part of the operand's graph at all, and the latter are pairwise distinct
+        stored = set()
+        for a_, (d_, p_) in g1.items():
+            if d_.startswith("list|"):
+                stored.update(p_)
+        ok, fresh = True, []
+        for o in delivered:
+            ad = W.addr.get(id(o))
+            if ad is not None and ad in g1:
+                if ad not in stored:
+                    ok = False          # e.g. the rank's own default box handed out
+            else:
+                fresh.append(o)
+        # the same stored object may be delivered repeatedly; fresh ones (built for an absent point) may not
+        fresh_ids = [id(o) for o in fresh]
+        impl["delivered"] = [len(delivered), len(fresh)]
+        side["absent_payloads_fresh_and_distinct"] = ok and _fresh_distinct(case, fresh)
     if "_render_same" in case:
         side["rendered_twice_pixel_identical"] = case.pop("_render_same")
         impl["render_size"] = case.pop("_render_size")
@@ -929,6 +1195,21 @@ def value_ops(d, n=3):
     if d == 1:
         for nm in ("add_scalar", "radd_scalar", "mul_scalar", "rmul_scalar"):
             out.append((f"F.{nm}", {"s": 2}, {}))
+            for sform in ("payload", "ppayload", "cp"):
+                out.append((f"F.{nm}", {"s": 2, "sform": sform}, {}))
+    # legal but unusual arguments
+    for lvl in ("T", "F"):
+        out.append((f"{lvl}.splitUniform", {"step": 0}, {}))
+        out.append((f"{lvl}.splitUniform", {"step": -2}, {}))
+        out.append((f"{lvl}.splitEqual", {"step": 0}, {}))
+        out.append((f"{lvl}.splitNonUniform", {"splits": []}, {}))
+        out.append((f"{lvl}.splitUnEqual", {"sizes": []}, {}))
+        out.append((f"{lvl}.splitNonUniform", {"splits": [1, 2], "splits_fiber": True, "pre_halo": 1}, {}))
+        out.append((f"{lvl}.truediv", {"n": 7}, {}))
+        if d >= 2:
+            for mf in ("first", "last", "sub"):
+                out.append((f"{lvl}.mergeRanks", {"depth": 0, "levels": 1, "style": "absolute", "merge_fn": mf}, {}))
+            out.append((f"{lvl}.mergeRanks", {"depth": 0, "levels": d - 1, "style": "relative", "merge_fn": "sub"}, {}))
     return out
 
 
@@ -963,6 +1244,15 @@ def read_ops(d, n=3):
                "intersection", "union"):
         out.append((f"F.{nm}", {}, {"two": True}))
     out.append(("F.coiterRangeShape", {"s": 0, "e": n + 1}, {"two": True}))
+    out.append(("F.coiterRangeShape", {"s": 1, "e": n + 3, "step": 2}, {"two": True}))
+    for nm in ("lazy_hoisted", "lazy_right", "lazy_or_and", "lazy_and_or", "lazy_sub_and", "lazy_project_and",
+               "lazy_prune_or", "lazy_intersection_and", "lazy_union_sub", "lazy_xor_or"):
+        out.append((f"F.{nm}", {}, {"two": True}))
+    # legal but unusual arguments
+    out.append(("F.iterRangeShape", {"s": n, "e": -1, "step": -1}, {}))
+    out.append(("F.iterRangeShape", {"s": 0, "e": n, "step": 0}, {}))
+    out.append(("F.iterRange", {"s": n, "e": 0}, {}))
+    out.append(("F.getRange", {"s": 0, "size": 0}, {}))
     out.append(("T.footprint", {"fmts": ["C"] * d, "points": pts}, {}))
     out.append(("T.footprint", {"fmts": (["U", "C", "U"])[:d], "points": pts}, {}))
     return out
@@ -1029,12 +1319,108 @@ def gen_render_hl(tier):
                               "tensor" if lvl == "T" else "root", 900000 + k, **kw)
 
 
+WIDE_TREES = {
+    1: [[[0, 1], [2, 0], [3, 4]], [[9, 1], [10, 2], [100, 3]], []],
+    2: [[[0, [[0, 1]]], [1, [[0, 2], [5, 3]]], [2, [[0, 4], [1, 0], [5, 6]]]],           # ragged, 3-way collisions
+        [[9, [[9, 1], [10, 2]]], [10, [[10, 3], [100, 4]]], [100, [[9, 5]]]],            # 9 / 10 / 100
+        [[0, []], [1, [[1, 0]]], [3, [[0, 7], [2, 2]]]]],
+    3: [[[0, [[0, [[0, 1], [2, 2]]], [1, [[2, 3]]]]], [1, [[0, [[2, 4]]], [2, []]]], [2, [[1, [[0, 5], [2, 6]]]]]]],
+    4: [[[0, [[0, [[0, [[0, 1], [1, 2]]], [1, [[1, 3]]]]], [2, [[1, [[0, 4]]]]]]], [1, [[2, [[0, [[1, 5]]]]]]]]],
+}
+
+
+def gen_wide(tier):
+    """input classes most harnesses miss: U format on unowned fibers / with estimated extents / restricted active
+    ranges, own fiber defaults and shapes, different declared shapes on two operands, float / bool / str values and
+    defaults, the operation applied twice, reads repeated after in-place growth (helpers reused), Metrics brackets,
+    tuple coordinates from an earlier flatten as input of other operations, depth 4, multi-digit coordinates"""
+    quick = tier == "quick"
+    h = 700000
+    variants = [
+        {"fmt": "U", "kindset": ["free"]},                                   # unowned fiber's own format, estimated extent
+        {"fmt": "UC", "kindset": ["free", "tensor", "root"]},                # mixed, estimated extents only
+        {"fmt": "CU", "shape": 12, "kindset": ["tensor", "root", "sub"]},
+        {"fmt": "U", "active": [1, 3], "kindset": ["free", "tensor", "root"]},
+        {"active": [1, 6], "active_all": True, "shape": 12, "kindset": ["tensor", "root", "free"]},
+        {"fdflt": 0, "dflt": 7, "kindset": ["tensor", "root", "sub"]},        # fibers built with default 0 in a default-7 tensor
+        {"fdflt": 7, "dflt": 0, "fshape": 200, "kindset": ["tensor", "root"]},
+        {"shape": 101, "shape2": 150, "kindset": ["tensor", "root"]},        # different declared shapes on the operands
+        {"vals": "float", "dflt": 0, "kindset": ["free", "tensor", "root"]},  # default 0.5
+        {"vals": "float", "dflt": 7, "kindset": ["tensor", "sub", "free"]},   # default 7.5, stored 0.5
+        {"vals": "bool", "dflt": 0, "kindset": ["tensor", "free"]},
+        {"vals": "str", "dflt": 0, "kindset": ["tensor", "free", "root"]},
+        {"twice": True, "kindset": ["tensor", "free", "root", "sub"]},
+        {"remut": True, "kindset": ["tensor", "root", "free"]},
+        {"metrics": "inside", "kindset": ["tensor", "root"]},
+        {"metrics": "built_inside", "kindset": ["tensor", "free"]},
+        {"pre": {"depth": 0, "levels": 1, "style": "tuple"}, "kindset": ["tensor", "free", "root"]},
+        {"pre": {"depth": 0, "levels": 1, "style": "pair"}, "fmt": "UC", "shape": 12, "kindset": ["tensor", "root"]},
+    ]
+    # copies of trees whose fibers carry another default than their rank (always run, every kind)
+    own = [[[0, []], [1, [[1, 0]]], [3, [[0, 7], [2, 2]]]], [[0, [[0, 7]]], [2, [[1, 0], [2, 7]]]]]
+    for t in own:
+        for fdflt, dflt in ((0, 7), (7, 0)):
+            for op, args, kinds in (("T.fromFiber", {}, ["tensor"]), ("T.deepcopy", {}, ["tensor"]),
+                                    ("F.copy", {"preserve": False}, ["root", "sub"]),
+                                    ("F.copy", {"preserve": True}, ["root", "sub"]), ("F.deepcopy", {}, ["root", "sub"]),
+                                    ("T.swizzleRanks", {"perm": [1, 0]}, ["tensor"]), ("T.updateCoords", {"mul": 1, "add": 1, "depth": 1}, ["tensor"])):
+                for kind in kinds:
+                    h += 1
+                    yield _mk("value", op, args, {}, 2, dflt, t, kind, h, fdflt=fdflt, nfollow=4, n=4)
+    for d in (1, 2, 3, 4):
+        trees = WIDE_TREES[d]
+        vops = value_ops(d) if d < 4 else [o for o in value_ops(3) if o[1].get("depth", 0) == 0][::3]
+        rops = read_ops(d) if d < 4 else read_ops(3)[::2]
+        for vi, var in enumerate(variants):
+            if var.get("pre") and d < 2:
+                continue
+            if d == 4 and vi % 3:
+                continue
+            for ti, t in enumerate(trees):
+                t2 = trees[(ti + 1) % len(trees)]
+                for fam, ops in (("value", vops), ("read", rops)):
+                    if fam == "value" and var.get("remut"):
+                        continue
+                    if fam == "read" and var.get("twice"):
+                        continue
+                    for oi, (op, args, extra) in enumerate(ops):
+                        # quick: a rotating slice of the operations per (variant, tree); thorough: every operation
+                        if quick and (oi + vi + ti + d) % (7 if d <= 2 else 11):
+                            continue
+                        if extra.get("pre") or (var.get("pre") and ("unflatten" in op or "swizzle" in op)):
+                            continue
+                        kinds = [k for k in var["kindset"] if (k == "tensor") == op.startswith(("T.", "R.")) or
+                                 (op.startswith(("P.", "RA.")) and k != "tensor")]
+                        kinds = [k for k in kinds if k != "sub" or d >= 2]
+                        if not kinds:
+                            continue
+                        kind = kinds[(oi + ti) % len(kinds)]
+                        h += 1
+                        kw = {"nfollow": 4 if quick else 8, "n": 6}
+                        for k in ("active", "active_all", "fdflt", "fshape", "vals", "twice", "remut", "metrics", "pre"):
+                            if k in var:
+                                kw[k] = var[k]
+                        if "fmt" in var:
+                            kw["fmt"] = [var["fmt"][i % len(var["fmt"])] for i in range(d)]
+                        # (dense readers enumerate shape^d points: large declared extents only on shallow trees)
+                        small = (lambda v: v if d <= 2 else 7 + v % 5)
+                        if "shape" in var:
+                            kw["shape"] = [small(var["shape"])] * d
+                        if "shape2" in var:
+                            kw["shape2"] = [small(var["shape2"])] * d
+                        if "fshape" in kw:
+                            kw["fshape"] = small(kw["fshape"])
+                        if extra.get("two"):
+                            kw["t2"] = t2
+                        yield _mk(fam, op, args, extra, d, var.get("dflt", 0 if (oi + ti) % 3 else 7), t, kind, h, **kw)
+
+
 def gen(seed, tier):
     """slow rendering cases are spread evenly over the stream so that they do not pile up in one worker chunk"""
     slow = list(gen_render_hl(tier))
     stride = 100 if tier == "quick" else 300
     i = 0
-    for c in gen_main(seed, tier):
+    for c in itertools.chain(gen_main(seed, tier), gen_wide(tier)):
         yield c
         i += 1
         if i % stride == 0 and slow:
@@ -1093,7 +1479,7 @@ def gen_main(seed, tier):
             yield _mk("read", op, {}, {}, d, 0, t, "tensor" if op.startswith("T.") else "root", h, **kw)
     # ---- seeded random -----------------------------------------------------------------
     rng = random.Random(seed)
-    nrand = 1000 if quick else 24000
+    nrand = 1200 if quick else 24000
     for i in range(nrand):
         d = rng.choice([1, 2, 2, 3])
         n = rng.choice([3, 4, 6])
@@ -1117,6 +1503,38 @@ def gen_main(seed, tier):
             kw["subidx"] = rng.randrange(4)
             if rng.random() < 0.3:
                 kw["mutable"] = True
+            if rng.random() < 0.15:
+                kw["shape2"] = [n + 3] * d
+            if rng.random() < 0.2:                         # fibers built with another default than the tensor's
+                kw["fdflt"] = 7 if dflt == 0 else 0
+            if rng.random() < 0.1:
+                kw["fshape"] = n + 4
+        else:
+            r = rng.random()
+            if r < 0.2:                                    # an unowned fiber's own format, estimated extents
+                kw["fmt"] = [rng.choice("CU") for _ in range(d)]
+        # the widened classes, sprinkled over the random stream
+        r = rng.random()
+        if r < 0.1:
+            kw["vals"] = rng.choice(["float", "float", "bool", "str"])
+        elif r < 0.2:
+            kw["active"] = [rng.randrange(0, 2), rng.randrange(2, n + 2)]
+            kw["active_all"] = rng.random() < 0.5
+        elif r < 0.3:
+            kw["metrics"] = rng.choice(["inside", "built_inside"])
+        elif r < 0.45:
+            kw["twice" if fam == "value" else "remut"] = True
+        elif r < 0.52 and d >= 2 and not extra.get("pre") and "unflatten" not in op and "swizzle" not in op:
+            kw["pre"] = {"depth": 0, "levels": 1, "style": rng.choice(["tuple", "pair"])}
+        if rng.random() < 0.08:                            # multi-digit coordinates: 9 / 10 / 100 order
+            def wide(tt, lvl):
+                m = {0: 0, 1: 9, 2: 10, 3: 11, 4: 100, 5: 101, 6: 110}
+                return [[m.get(c, c) if lvl == 0 else c, wide(p, lvl + 1) if isinstance(p, list) else p] for c, p in tt]
+            if d <= 2:
+                t, t2 = wide(t, 0), wide(t2, 0)
+                if extra.get("two"):
+                    kw["t2"] = t2
+                kw.pop("shape", None), kw.pop("shape2", None)
         yield _mk(fam, op, args, extra, d, dflt, t, kind, rng.randrange(1 << 30), **kw)
 
 
@@ -1139,7 +1557,9 @@ def signature(case, verdict, failed):
     if "alias:" in why or impl.get("nshared"):
         parts.append("alias:" + impl.get("alias_region", "?"))
     elif "snapshot differs" in why or "left the operand changed" in why:
-        parts.append("operand-changed")
+        parts.append("operand-changed:" + "+".join(impl.get("changed", ["?"])))
+        if "fdflt" in case and case["fdflt"] != case["dflt"]:
+            parts.append("fiber-default-differs-from-rank")
     elif "follow-up" in why:
         parts.append("followup-visible")
     elif case["fam"] == "read" and "spec" in failed:
